@@ -32,7 +32,12 @@ def run(tier, opts):
     for b in builds:
         binp = vf.build(b)
         outp = os.path.join(tmp, f"work-{b}.ndjson")
-        vf.vh(binp, ["malformed", "c17", outp, 6 if quick else 40, "yes", "0" if quick else "1"], timeout=6 * 3600)
+        r = vf.vh(binp, ["malformed", "c17", outp, 6 if quick else 40, "yes", "0" if quick else "1"], timeout=6 * 3600, check=False)
+        if r.returncode != 0:
+            if "memory allocation" in r.stderr:
+                ck.violation("alloc:" + r.stderr.strip().splitlines()[-1][:60], f"[{b}] the verifier tried to allocate memory in proportion to a declared number: {r.stderr.strip()[-300:]}", {"stderr": r.stderr[-4000:]})
+                continue
+            raise vf.ToolError(f"harness failed ({r.returncode}): {r.stderr[-2000:]}")
         recs = vf.read_ndjson(outp)
         summ = [r for r in recs if r.get("summary")][0]
         for r in recs:
